@@ -2,8 +2,10 @@
 package main
 
 import (
+	"encoding/json"
 	"errors"
 	"fmt"
+	"math"
 	"sort"
 	"strings"
 
@@ -288,7 +290,99 @@ func scenarios() []*sched.Scenario {
 			},
 		})
 	}
+	// Release racing with Next callers on the same object: whatever Release persists must not be below a number that
+	// has been handed out; afterwards the same object and a restarted one continue above everything seen so far
+	for _, interval := range []uint64{1, 2} {
+		interval := interval
+		out = append(out, &sched.Scenario{
+			Name: fmt.Sprintf("release-vs-next/i%d", interval),
+			Run: func() {
+				st := mapdb.NewMapDB()
+				seq, _ := kvstore.NewSequence(st, seqKey, interval)
+				var seen []uint64
+				take := func(s *kvstore.Sequence) {
+					n, err := s.Next()
+					if err != nil {
+						panic(err)
+					}
+					seen = append(seen, n)
+				}
+				take(seq)
+				vrt.Par(
+					func() { take(seq); take(seq) },
+					func() {
+						if err := seq.Release(); err != nil {
+							panic(err)
+						}
+					},
+				)
+				take(seq) // the released object leases again
+				seq2, _ := kvstore.NewSequence(st, seqKey, 3)
+				take(seq2) // the old object is abandoned here: a restarted one must not repeat anything either
+				vrt.Observe("numbers", fmt.Sprint(seen))
+				dup := map[uint64]bool{}
+				for _, n := range seen {
+					if dup[n] {
+						vrt.Fail("number-reused|release-vs-next", "number %d was handed out twice: %v", n, seen)
+					}
+					dup[n] = true
+				}
+			},
+		})
+	}
 	return out
+}
+
+// hugeIntervalPart: intervals near the top of the uint64 range are legal (the repository's own test uses
+// MaxUint64); every history of Next / Release+Restart(4) up to depth 5 must still hand out 0,1,2,... without gaps.
+func hugeIntervalPart() *cli.Part {
+	return &cli.Part{Name: "huge-intervals", Run: func(c *cli.Ctx) *cli.PartResult {
+		pr := &cli.PartResult{Engine: "H", Exhaustive: true}
+		seenViol := map[string]bool{}
+		for _, interval := range []uint64{math.MaxUint64, 3 << 62, math.MaxInt64 + 1, math.MaxInt64} {
+			var rec func(hist []int)
+			rec = func(hist []int) {
+				pr.Transitions++
+				st := mapdb.NewMapDB()
+				seq, _ := kvstore.NewSequence(st, seqKey, interval)
+				want := uint64(0)
+				var names []string
+				for _, op := range hist {
+					if op == 0 {
+						names = append(names, "Next")
+						n, err := seq.Next()
+						if err != nil || n != want {
+							sig := "huge-intervals|Next|wrong-number"
+							if !seenViol[sig] {
+								seenViol[sig] = true
+								raw, _ := json.Marshal(map[string]any{"interval": interval, "history": names})
+								pr.Violations = append(pr.Violations, &cli.Violation{Part: "huge-intervals", Engine: "H", Signature: sig,
+									Message: fmt.Sprintf("interval %d, history %v: Next returned (%d, %v), the numbers handed out so far are 0..%d and nothing crashed, so %d is due", interval, names, n, err, int64(want)-1, want), Replay: raw})
+							}
+							return
+						}
+						want++
+					} else {
+						names = append(names, "Release;Restart(4)")
+						if err := seq.Release(); err != nil {
+							panic(err)
+						}
+						seq, _ = kvstore.NewSequence(st, seqKey, 4)
+					}
+				}
+				pr.Traces++
+				if len(hist) == 5 {
+					return
+				}
+				rec(append(append([]int{}, hist...), 0))
+				rec(append(append([]int{}, hist...), 1))
+			}
+			rec(nil)
+		}
+		pr.States, pr.Evaluations, pr.Distinct = pr.Traces, pr.Transitions, pr.Traces
+		pr.Samples = []any{"interval 18446744073709551615: Next, Next, Release;Restart(4), Next -> 0, 1, 2"}
+		return pr
+	}}
 }
 
 func main() {
@@ -306,9 +400,9 @@ func main() {
 	})
 	part.Shards, part.ShardsQuick = 11, 11
 	cli.Main(&cli.Property{
-		ID: "C07", Level: "fault_enumeration", Scenarios: scenarios(), Parts: []*cli.Part{part},
+		ID: "C07", Level: "fault_enumeration", Scenarios: scenarios(), Parts: []*cli.Part{part, hugeIntervalPart()},
 		QuickBound: 2, ThoroughBound: 3, QuickUnbounded: true, ThoroughUnbounded: true, Cache: true, ReleasePoints: true, QuickSecs: 45, ThoroughSecs: 600,
-		RaceHB: &cli.RaceHB{QuickBound: 1, ThoroughBound: 2},
+		RaceHB:      &cli.RaceHB{QuickBound: 1, ThoroughBound: 2},
 		Rule:        "H: every history up to depth 7 (thorough 8) over Next, Release, Restart(interval 1..3) in which every Next/Release is additionally run with the process stopping before or after its 1st/2nd store call (the object is then abandoned and only Restart is possible) and with its 1st/2nd store call failing (the object stays in use); oracle: returned numbers strictly increase over the life of the store and the gap between consecutive numbers is at most the sum of the intervals of the objects crashed/abandoned without Release in between (0 after clean Releases). S: all interleavings of 2-3 threads x 2 Next calls on one Sequence; distinct = distinct histories / observation logs",
 		Assumptions: []string{"one live Sequence object per key at a time; an abandoned object is never used again", "store calls do not fail other than by the process stopping"},
 		NotReached:  []string{"intervals above 3"},
